@@ -1,7 +1,7 @@
 /* C14: phosg::fgets(FILE*) returns one whole line, however long, or throws. ::fgets / feof / fileno are stubs obeying the C
  * contract over a stream of symbolic bytes: fgets(s, size, f) stores at most size-1 bytes, stops after a newline or at end
- * of data, NUL-terminates, returns NULL when nothing could be read (setting the EOF indicator), or - solver's choice -
- * fails (NULL, EOF indicator clear). Cells: LEN = line length without terminator, HAS_NL = line is newline-terminated
+ * of data, NUL-terminates, returns NULL when nothing could be read (setting the EOF indicator), or - in the FAULT_AT
+ * cells, at that call - fails (NULL, EOF indicator clear). Cells: LEN = line length without terminator, HAS_NL = line is newline-terminated
  * (then XTRA more bytes follow which must not be consumed) or ends at end of data. Line bytes are any value except NUL and
  * newline (a C-string line reader cannot represent NUL: outside the claim).
  * FB = phosg::fgets' internal block size in this build (256 in the source; spec: src_subst replaces it so that lines of
@@ -37,11 +37,11 @@ uint8_t* STUB(fgets)(uint8_t* s, uint32_t size, uint8_t* f) {
   if (fault[j]) { faulted = 1; return 0; }
   /* bytes available up to and including the first newline, or to end of data (control flow is concrete per cell) */
   uint64_t avail = (HAS_NL && pos <= LEN) ? (LEN + 1 - pos) : (T - pos);
-  uint64_t k = size - 1;
+  uint64_t k = FB - 1; /* == size - 1 (asserted above); the constant keeps the stub's control flow concrete */
   if (k > avail) k = avail;
   for (uint64_t i = 0; i < k; i++) s[i] = content[pos + i];
   pos += k;
-  if (k < size - 1 && !(HAS_NL && pos == LEN + 1 && k > 0)) eof_flag = 1; /* stopped for lack of data, not at a newline */
+  if (k < FB - 1 && !(HAS_NL && pos == LEN + 1 && k > 0)) eof_flag = 1; /* stopped for lack of data, not at a newline */
   if (k == 0) return 0;
   s[k] = 0;
   return s;
@@ -56,9 +56,8 @@ void harness(void) {
     if (HAS_NL && i == LEN) content[i] = '\n';
     else ASSUME(content[i] != 0 && content[i] != '\n');
   }
-  for (int j = 0; j <= MAXCALLS; j++) fault[j] = in_bool();
-#ifdef NO_FAULTS
-  for (int j = 0; j <= MAXCALLS; j++) ASSUME(!fault[j]);
+#ifdef FAULT_AT
+  fault[FAULT_AT] = 1; /* the FAULT_AT-th ::fgets call fails (cell): keeps the stub's control flow concrete */
 #endif
   uint32_t chk = (uint32_t)in_range(0, EXPECT ? EXPECT - 1 : 0); /* one symbolic position instead of a loop over all */
   int64_t r = w_fgets(file_obj, out, sizeof(out));
